@@ -57,6 +57,10 @@ func c07Offenders() []c07Offender {
 		{Name: "quit", Bytes: cmd("QUIT"), End: "wait"},
 		{Name: "select-garbage", Bytes: cmd("SELECT", "abc"), End: "wait"},
 		{Name: "rename-self", Setup: [][]string{{"SET", "o", "1"}}, Bytes: cmd("RENAME", "o", "o"), End: "wait"},
+		// a client that pipelines requests and never reads the replies: once its
+		// receive window is full the server's Write to it blocks; nobody else may notice
+		{Name: "stops-reading", Bytes: concat(cmd("ECHO", "0123456789abcdef"), cmd("ECHO", "0123456789abcdef"), cmd("ECHO", "0123456789abcdef"), cmd("PING")), End: "stall"},
+		{Name: "stops-reading-big-reply", Setup: [][]string{{"RPUSH", "ol", "aaaaaaaaaaaaaaaa", "bbbbbbbbbbbbbbbb"}}, Bytes: concat(cmd("LRANGE", "ol", "0", "-1"), cmd("LRANGE", "ol", "0", "-1")), End: "stall"},
 	}
 }
 
@@ -83,8 +87,14 @@ func (w *c07SchedWorld) body() {
 		for _, s := range w.off.Setup {
 			cl.Do(s...)
 		}
+		if w.off.End == "stall" {
+			cl.Raw().Capacity = 8
+		}
 		cl.Send(w.off.Bytes)
 		switch w.off.End {
+		case "stall":
+			// never read, never close
+			return
 		case "close":
 			vrt.Yield("offender-before-close")
 			cl.Close()
